@@ -66,7 +66,7 @@ struct Outcome {
     digest: Vec<u8>,
 }
 
-trait Hk: Digest + Default + digest::FixedOutput + digest::Reset + digest::Update {
+trait Hk: Digest + Default + Clone + digest::FixedOutput + digest::Reset + digest::Update {
     fn set(&mut self, cv: &[u8], datalen: usize, buffered: &[u8]);
     fn get(&self) -> (Vec<u8>, usize, Vec<u8>, usize);
 }
@@ -103,6 +103,9 @@ fn run_typed<H: Hk>(inp: &Input) -> Outcome {
                 }
                 3 => {
                     digest::Update::update(&mut h, &[0x5au8; 100][..]);
+                    // byte counter far into a message before the reset
+                    let (cv, _, _, _) = h.get();
+                    h.set(&cv, (1usize << 40) + 3, &[0x11u8; 3][..]);
                     digest::Reset::reset(&mut h);
                 }
                 _ => {}
@@ -135,7 +138,14 @@ fn run_typed<H: Hk>(inp: &Input) -> Outcome {
             Digest::update(&mut h, &inp.msg[inp.split..]);
         }
         let (cv, dl, _, pos) = h.get();
-        let d = h.finalize();
+        // a third of the cases: the digest of a clone taken after the data was absorbed
+        let d = if (inp.msg.len() + inp.split) % 3 == 1 {
+            let c = h.clone();
+            Digest::update(&mut h, b"x");
+            c.finalize()
+        } else {
+            h.finalize()
+        };
         (pre, cv, dl, pos, d.to_vec())
     }));
     match r {
